@@ -12,7 +12,7 @@ CLAIMS = {
  "C05": ("Theorems: matrix stencils = divergence of the explicit gradient/mean flux, cell by cell, all classes; TVD zero/unit-limiter identities "
          "(Props/C05.v); 7 correspondence suites; identity probes on the real code; zero-u_upwind edge is a known finding (refuted theorem)", "DESIGN.md 3, 4 (C05)"),
  "C06": ("Theorems: diffusion of a constant is 0, central/upwind/TVD of a constant c is c*div(u) (Props/C06.v); suites + probes incl. sources-only solve", "DESIGN.md 4 (C06)"),
- "C02": ("PARTIAL: convergence under refinement is not a Coq theorem. Proved (generic field): on uniform spacing the diffusion and central-advection stencils "
+ "C02": ("PARTIAL: proved are the two halves of the Lax argument separately, not the Taylor remainder bound. Stability, every class and dimension, non-uniform spacing included (over R): the discrete solution is within max|truncation error| / min(alpha/dt+beta) of any field satisfying the rows up to that error (comparison principle; D>=0, upwind with divergence-free u; Dirichlet / no-flux / one-signed Robin / periodic closures). Consistency (generic field): on uniform spacing the diffusion and central-advection stencils "
          "reproduce the continuous operator exactly on polynomial families separating every metric factor (Cartesian, cylindrical r incl. the axis cell, "
          "SphericalGrid1D exact-volume r, angular 1/r^2), SphericalGrid3D radial block with its exact O(h^2) remainder (Props/C02.v); the model is tied to every "
          "builder by the operator/bc/solve suites; manufactured-solution refinement on the implementation (9 classes x central/upwind x Dirichlet/Robin x "
@@ -24,12 +24,12 @@ CLAIMS = {
  "C04": ("Theorems over every solution of the assembled system: term order irrelevant, linear in the unknown, superposition in sources/boundary "
          "data/old values, terms never enter boundary rows (Props/C04.v); the solve suite evaluates the residual of the MODEL system inside Coq at "
          "the real solver's answer for random term lists; probes: identity of the returned object, external solver receives the identical system, "
-         "solveMatrixPDE agreement", "DESIGN.md 4 (C04)"),
+         "solveMatrixPDE agreement, per-cell source/transient coefficients against a cell-by-cell assembly; uniqueness of the solution of C07-type systems over R (all closures)", "DESIGN.md 4 (C04)"),
  "C07": ("Theorems over R: every solution of a system whose rows are convex combinations plus sink stays within [min(data,0), max(data,0)] (within the data "
          "range without sink), non-negativity; sign structure of the diffusion and upwind stencils and row sum = div(u); per axis, -diffusion + upwind has "
          "exactly the convex row shape; and ON THE MODEL for every class and dimension: every solution of the transient/-diffusion/upwind(div-free)/sink "
          "system lies between min and max of previous values, boundary data and 0 (flux form + argmax over the finite set of unknowns; ghost hypothesis from "
-         "Dirichlet / no-flux rows) (Props/C07.v). PARTIAL: periodic axes not covered; ghost hypothesis discharged per boundary kind. Probe: multi-step solves with D contrast 1e8, divergence-free u on every class, dt over 8 decades, Dirichlet/no-flux/periodic; overshoots "
+         "Dirichlet / no-flux rows) (Props/C07.v). The underlying comparison principle (C07_comparison) includes periodic neighbours and has a concrete non-vacuity instance over R; the ghost hypothesis is discharged per boundary kind. Probe: multi-step solves with D contrast 1e8, divergence-free u on every class, dt over 8 decades, Dirichlet/no-flux/periodic; overshoots "
          "confirmed by exact rational re-solve", "DESIGN.md 4 (C07)"),
  "C08": ("Theorems (generic field): on a field that does not vary along an axis the block of that axis of diffusion is 0 and of central/upwind advection is "
          "value*div(u), 0 for invariant velocity (Props/C08.v); model symmetric under axis relabelling/mirroring by construction (one per-axis stencil); per-axis "
@@ -38,15 +38,15 @@ CLAIMS = {
  "C09": ("Heap machine Model/State.v (dirty flags of TrackedArrays, ghost cells, cached boundary term, shared BoundaryConditions objects, copy / arithmetic / "
          "explicit-solver results), validated by operation-history correspondence (bounded-exhaustive + random, 5 grid classes). Theorems: in every heap a solve "
          "assembles its boundary equations from the current content (= fresh start), shared objects included; for histories without sharing, clean flags imply "
-         "fresh ghosts and cache (invariant by induction over histories); the pre-repair code is refuted by two concrete histories (Props/C09.v); probe: next "
-         "solve vs fresh start on real objects", "DESIGN.md 4 (C09)"),
+         "fresh ghosts and cache (invariant by induction over histories); the pre-repair code is refuted by two concrete histories; after the explicit solver its input and result have fresh ghosts in every heap (Props/C09.v); probe: next "
+         "solve (implicit or explicit first) vs fresh start on real objects, systematic single-side edits x consumers", "DESIGN.md 4 (C09)"),
  "C10": ("Theorems: sizes = face differences, ghost sizes repeat, centres = midpoints, (N,L) form, coded volumes in geometric form per class, radial/"
          "Cartesian sums telescope to the domain size (generic field); over R: positivity, SphericalGrid1D volume = full shell, SphericalGrid3D volume "
          "REFUTED (known finding, pinned by a test); labels by finite enumeration over tables regenerated from face.py/mesh.py (Props/C10.v); mesh suite; "
          "per-cell geometric-volume and label probes", "DESIGN.md 4 (C10)"),
  "C11": ("Theorems: constants, linear exactness on any spacing, donor-cell rule (generic field); over R: every mean lies between its two neighbours and "
          "harmonic <= geometric <= arithmetic with the same width weights (weighted AM-GM from 1+x<=exp x) (Props/C11.v); means suite on all classes incl. "
-         "zeros; probes incl. geometricMean closed form", "DESIGN.md 4 (C11)"),
+         "zeros; probes incl. geometricMean closed form and a donor-cell reference for upwindMean", "DESIGN.md 4 (C11)"),
  "C14": ("Storage-level model Model/Algebra.v; theorems by induction over expression trees of any depth: no operator writes a pre-existing array, results "
          "of operator applications are fresh arrays (value, ghosts, every BC array), results carry the boundary conditions of the left-most variable leaf, "
          "copy() is equal and fresh; operator table regenerated from cell.py/face.py has every reflected form (Props/C14.v). Elementwise numerics are numpy's: "
@@ -64,7 +64,7 @@ CLAIMS = {
          "TVD vectors enter as data scaled K/T (the code's TVD vector scales so except below _fsign's absolute threshold: exercised, not proved). Probe: "
          "two unit systems over +-6 decades, also with D = harmonicMean(k); homogeneity of the means", "DESIGN.md 4 (C17)"),
  "C12": ("Theorems: backward-Euler row identity, steady <-> fixed point for every dt and alpha, increment identity behind dt->0/inf, explicit step "
-         "definition (Props/C12.v); limit statements themselves are partial (identities only); suites solve/explicit; dt sweeps over 12 decades on the real code", "DESIGN.md 4 (C12)"),
+         "definition; over R on every class and dimension (diffusion D>=0, upwind with divergence-free u, sink): |step - steady| <= W*A/(A+dt*B) (beta>=B>0), |step - old| <= dt*P/a0, |implicit - explicit| <= dt^2*Q/a0, and the epsilon-forms of both limits (Props/C12.v). Not covered by theorems: dt->inf with beta = 0, central advection. Suites solve/explicit; dt sweeps over 12 decades, multi-step and explicit update_value loops on the real code", "DESIGN.md 4 (C12)"),
  "C13": ("Theorems about the limiter definitions REGENERATED from utilities.fluxLimiter / advection._fsign on every run (published closed form "
          "for every real r, all denominators non-zero, psi(1)=1, 0<=psi<=min(2r,4), clipping, fallback, _fsign never 0), translator sanity at Qc "
          "inside Coq and a search on the real code", "DESIGN.md 4 (C13)"),
